@@ -1052,8 +1052,8 @@ func main() {
 		workerDeadline = d
 	}
 	if !run.Quick() {
-		// thorough budget is 15 min wall: stop enumerating after 12 and report exhaustive=false
-		if d := time.Now().Add(12 * time.Minute); d.Before(workerDeadline) {
+		// thorough budget is 15 min wall: stop enumerating 11 min after the build and report exhaustive=false
+		if d := time.Now().Add(11 * time.Minute); d.Before(workerDeadline) {
 			workerDeadline = d
 		}
 	}
@@ -1081,7 +1081,7 @@ func main() {
 		HistByLen: map[string]int{}, UnrelatedSeen: map[string]int{}}
 	classes := map[string]*Class{}
 	var samples []Obs
-	for _, w := range outs {
+	for i, w := range outs {
 		if len(w.Errors) > 0 {
 			exit(func() { unbound("worker could not drive a handler: %s", strings.Join(w.Errors, "; ")) })
 		}
@@ -1097,6 +1097,9 @@ func main() {
 		}
 		tot.HistCases += w.HistCases
 		tot.Retried += w.Retried
+		if i == 0 || w.DenseDelaysDone < tot.DenseDelaysDone {
+			tot.DenseDelaysDone = w.DenseDelaysDone
+		}
 		tot.HistNonTrivial += w.HistNonTrivial
 		for k, v := range w.HistByLen {
 			tot.HistByLen[k] += v
@@ -1210,9 +1213,12 @@ func main() {
 	run.Coverage["evaluations"] = tot.Cases
 	run.Coverage["deliveries"] = tot.Deliveries
 	run.Coverage["distinct_nontrivial"] = tot.NonTrivial
-	run.Coverage["rule"] = "per message type (replicate-sync, forward-apply, cache-invalidate, edge-sync-file, edge-sync-reconcile): fresh real handler + nonce cache built by the call site's own expression at virtual time T0; a signed message (timestamp = receiver second + offset) is delivered at T0+first+phase and the byte-identical message again `delay` later, optionally with unrelated valid traffic every 61 s in between (eviction sweeps). Grid = offsets x delays x recv-phase {0,0.5s} x delay sub-second {0,+0.999999999s} x first-receipt {0,61s} x ticks {off,on} (quick: edge values of tol/ttl; thorough adds every whole second of offset in [-tol-2,tol+2] x every whole second of delay in [0,max(2tol,ttl)+3]). Every tuple is distinct by construction; a case counts as non-trivial when the original was accepted and the replay arrived while its timestamp was still inside the window (only the nonce cache can stop it). HISTORIES (history_cases of the evaluations): every sequence of 2..4 deliveries on ONE handler + cache with exactly one first delivery M (timestamp = receiver second + offset), a final byte-identical replay R after it and unrelated authentic deliveries in the other positions, each U (same sender, fresh nonce) or V (another node id, the SAME nonce), every delivery preceded by a clock advance from the gap grid {0, 1s, I-1s, I, I+1s, ttl-I-1s, ttl-I, ttl-I+1s, ttl-1s, ttl, ttl+1s} (I = every time.Duration constant of nonce_cache.go as compiled, i.e. the sweep interval; history_gap_grid_s lists the values), the advances between M and R summing to at most 2*tol+2s (beyond that R is outside the window for every offset; the time grid covers that side), x the 9 edge offsets. quick: shapes MR, MXR, XMR with the time from construction to the first delivery in {0, I+1s} and MXXR starting at construction time; thorough adds XMXR, XXMR and construction gaps {0, I, I+1s} for every shape. Any accepted R after an accepted M is a violation; U and V are expected to be accepted (counted in unrelated_deliveries, a rejection is not a violation of this property)."
+	run.Coverage["rule"] = "per message type (replicate-sync, forward-apply, cache-invalidate, edge-sync-file, edge-sync-reconcile): fresh real handler + nonce cache built by the call site's own expression at virtual time T0; a signed message (timestamp = receiver second + offset) is delivered at T0+first+phase and the byte-identical message again `delay` later, optionally with unrelated valid traffic every 61 s in between (eviction sweeps). Grid = offsets x delays x recv-phase {0,0.5s} x delay sub-second {0,+0.999999999s} x first-receipt {0,61s} x ticks {off,on} (quick: edge values of tol/ttl; thorough adds every whole second of offset in [-tol-2,tol+2] x every whole second of delay in [0,max(2tol,ttl)+3]). Every tuple is distinct by construction; a case counts as non-trivial when the original was accepted and the replay arrived while its timestamp was still inside the window (only the nonce cache can stop it). HISTORIES (history_cases of the evaluations): every sequence of 2..4 deliveries on ONE handler + cache with exactly one first delivery M (timestamp = receiver second + offset), a final byte-identical replay R after it and unrelated authentic deliveries in the other positions, each U (same sender, fresh nonce) or V (another node id, the SAME nonce), every delivery preceded by a clock advance from the gap grid {0, 1s, I-1s, I, I+1s, ttl-I-1s, ttl-I, ttl-I+1s, ttl-1s, ttl, ttl+1s} (I = every time.Duration constant of nonce_cache.go as compiled, i.e. the sweep interval; history_gap_grid_s lists the values), the advances between M and R summing to at most 2*tol+2s (beyond that R is outside the window for every offset; the time grid covers that side), x the 9 edge offsets. quick: shapes MR, MXR, XMR with the time from construction to the first delivery in {0, I+1s} and MXXR starting at construction time; thorough adds construction gaps {0, I, I+1s} for those shapes, and the shapes XMXR, XXMR starting at construction time. ORDER: the quick set (histories + edge grid) of every site runs first and is never cut short; thorough then runs the extra histories and the dense grid delay by delay across all sites under its time cap (a cut sets exhaustive=false and dense_grid_delays_completed_s says how far every site got). Any accepted R after an accepted M is a violation; U and V are expected to be accepted (counted in unrelated_deliveries, a rejection is not a violation of this property)."
 	run.Coverage["history_cases"] = tot.HistCases
 	run.Coverage["cases_retried_after_harness_error"] = tot.Retried
+	if !run.Quick() {
+		run.Coverage["dense_grid_delays_completed_s"] = tot.DenseDelaysDone
+	}
 	run.Coverage["history_cases_by_shape"] = tot.HistByLen
 	run.Coverage["history_nontrivial"] = tot.HistNonTrivial
 	run.Coverage["history_gap_grid_s"] = tot.HistGaps
